@@ -14,10 +14,10 @@ import (
 
 type externModel func(f *Frame, st *State, r *Term, fn *ssa.Function, args []Val, pos token.Pos) Val
 
-var externModels map[string]externModel
+var externModels = map[string]externModel{}
 
 func init() {
-	externModels = map[string]externModel{
+	for k, v := range map[string]externModel{
 		"fmt.Errorf":        modelNonNilError,
 		"errors.New":        modelNonNilError,
 		"strings.EqualFold": modelEqualFold,
@@ -25,6 +25,9 @@ func init() {
 		"sort.SliceStable":  modelSortSlice,
 		"sort.Strings":      modelSortSlice,
 		"github.com/google/go-cmp/cmp.Equal": modelCmpEqual,
+		"strings.Split": modelStringsSplit,
+	} {
+		externModels[k] = v
 	}
 }
 
@@ -42,6 +45,16 @@ func modelEqualFold(f *Frame, st *State, r *Term, fn *ssa.Function, args []Val, 
 	a, b := f.asTerm(args[0]), f.asTerm(args[1])
 	res := f.ctx.uf("eqfold", SBool, a, b)
 	f.ctx.assume(Implies(Eq(a, b), res))
+	return res
+}
+
+func modelStringsSplit(f *Frame, st *State, r *Term, fn *ssa.Function, args []Val, pos token.Pos) Val {
+	trust(f, "strings.Split returns a fresh slice with at least one element when the separator is not empty, and has no other effect")
+	res := f.ctx.fresh("split", SSlc)
+	f.ctx.assume(And(Ge(SlcBase(res), st.alloc), Gt(SlcBase(res), IntLit(0)), Eq(SlcOff(res), IntLit(0)), Le(SlcLen(res), SlcCap(res)), Ge(SlcLen(res), IntLit(0))))
+	sep := f.asTerm(args[1])
+	f.ctx.assume(Implies(Neq(sep, f.ctx.strLit("")), Ge(SlcLen(res), IntLit(1))))
+	st.alloc = Add(SlcBase(res), IntLit(1))
 	return res
 }
 
